@@ -104,45 +104,52 @@ def run(ctx, monitors):
         return _judge(ctx, monitors, [doc["script"]], [(1, [doc["script"]], None)])
     c11 = bool(monitors & MON_C11)
     c12 = bool(monitors & MON_C12_CALLBACKS)
-    # ------------------------------------------------------------------ 1. design level
+    # ------------------------------------------------------------------ 1. design level (jobs run 4 at a time)
+    mc = []      # (cfg, expect_ok)
     if c11:
-        ctx.model_check("SyncServe", "MC_SyncServe.cfg" if not q else "MC_SyncServe_quick.cfg")
+        mc.append(("MC_SyncServe.cfg" if not q else "MC_SyncServe_quick.cfg", True))
         if not q:
-            ctx.model_check("SyncServe", "MC_SyncServe_mem.cfg")
-            ctx.model_check("SyncServe", "MC_SyncServe_same.cfg")
-        for mon in ("NoGap", "NoRepeat", "LiveComplete"):
-            r = ctx.model_check("SyncServe", "MC_SyncServe_%s.cfg" % mon, expect_ok=False)
-            ctx.notes.append("design model, Mon_%s: %s" % (mon, "violated (model counterexample, depth %s)" % r.depth if r.violated else "holds"))
+            mc += [("MC_SyncServe_mem.cfg", True), ("MC_SyncServe_same.cfg", True)]
+        mc += [("MC_SyncServe_%s.cfg" % m, False) for m in ("NoGap", "NoRepeat", "LiveComplete")]
         if not q:
-            for cfg in ("MC_SyncServe_sameLive.cfg", "MC_SyncServe_w2.cfg", "MC_SyncServe_memevict.cfg"):
-                r = ctx.model_check("SyncServe", cfg, expect_ok=False)
-                ctx.notes.append("design model %s: %s" % (cfg, r.violated or "holds"))
+            mc += [(c, False) for c in ("MC_SyncServe_sameLive.cfg", "MC_SyncServe_w2.cfg", "MC_SyncServe_memevict.cfg")]
     if c12:
         if not q:
-            ctx.model_check("SyncServe", "MC_SyncServe_stall.cfg")
-        for mon in ("PutNeverWaits", "OthersServed", "remap"):
-            r = ctx.model_check("SyncServe", "MC_SyncServe_%s.cfg" % mon, expect_ok=False)
-            ctx.notes.append("design model, Mon_%s: %s" % (mon, "violated (model counterexample)" if r.violated else "holds"))
+            mc.append(("MC_SyncServe_stall.cfg", True))
+        mc += [("MC_SyncServe_%s.cfg" % m, False) for m in ("PutNeverWaits", "OthersServed", "remap")]
     # ------------------------------------------------------------------ 2. behaviours from TLC
-    scripts = []
+    gen = []     # callables returning script lists
     if c11:
         # the complete set of maximal behaviours of the bounded model (1 stream, 2 appends, 4 start rounds)
-        scripts += _enumerate(ctx, "Sim_SyncServe.cfg", "all-bolt")
+        gen.append(lambda: _enumerate(ctx, "Sim_SyncServe.cfg", "all-bolt"))
         if not q:
-            scripts += [dict(s, backend="boltu", name=s["name"].replace("all-bolt", "all-boltu")) for s in scripts]
-            scripts += _enumerate(ctx, "Sim_SyncServe_mem.cfg", "all-mem")
-            scripts += _enumerate(ctx, "Sim_SyncServe_w2.cfg", "w2-bolt", limit=600)
-            scripts += _enumerate(ctx, "Sim_SyncServe_memevict.cfg", "evict-mem", limit=300)
+            gen.append(lambda: _enumerate(ctx, "Sim_SyncServe_mem.cfg", "all-mem"))
+            gen.append(lambda: _enumerate(ctx, "Sim_SyncServe_w2.cfg", "w2-bolt", limit=600))
+            gen.append(lambda: _enumerate(ctx, "Sim_SyncServe_memevict.cfg", "evict-mem", limit=300))
+            gen.append(lambda: _simulate(ctx, "Sim_SyncServe_two.cfg", "two-boltu", 100, 200, impl="boltu"))
         else:
-            scripts += _enumerate(ctx, "Sim_SyncServe_w2.cfg", "w2-bolt", limit=60)
+            gen.append(lambda: _enumerate(ctx, "Sim_SyncServe_w2.cfg", "w2-bolt", limit=60))
         n = 40 if q else 400
-        scripts += _simulate(ctx, "Sim_SyncServe_two.cfg", "two-bolt", n, 200)
-        scripts += _simulate(ctx, "Sim_SyncServe_same.cfg", "same-bolt", 150 if q else 600, 200)
-        if not q:
-            scripts += _simulate(ctx, "Sim_SyncServe_two.cfg", "two-boltu", 100, 200, impl="boltu")
+        gen.append(lambda: _simulate(ctx, "Sim_SyncServe_two.cfg", "two-bolt", n, 200))
+        gen.append(lambda: _simulate(ctx, "Sim_SyncServe_same.cfg", "same-bolt", 150 if q else 600, 200))
     if c12:
-        n = 2 if q else 6
-        scripts += _simulate(ctx, "Sim_SyncServe_q100.cfg", "q100-bolt", n, 3000)
+        gen.append(lambda: _simulate(ctx, "Sim_SyncServe_q100.cfg", "q100-bolt", 2 if q else 6, 3000))
+
+    def do_mc(job):
+        cfg, expect = job
+        r = ctx.model_check("SyncServe", cfg, expect_ok=expect, workers=4)
+        if not expect:
+            ctx.notes.append("design model %s: %s" % (cfg, ("%s violated (model counterexample, depth %s)" % (r.violated, r.depth))
+                                                      if r.violated else "monitor holds"))
+        return []
+    with ThreadPoolExecutor(max_workers=4) as ex:
+        futs = [ex.submit(do_mc, j) for j in mc] + [ex.submit(g) for g in gen]
+        scripts = []
+        for f in futs:
+            scripts += f.result()
+    if c11 and not q:
+        scripts += [dict(s, backend="boltu", name=s["name"].replace("all-bolt", "all-boltu"))
+                    for s in scripts if s["name"].startswith("all-bolt-")]
     ncex = sum(1 for s in scripts if "-cex-" in s["name"])
     ctx.notes.append("TLC behaviours replayed on the real SyncChain/callbackStore: %d (%d of them violate a monitor on the design model)"
                      % (len(scripts), ncex))
